@@ -1415,6 +1415,20 @@ def _calculate_divisions(statistics, dataset_info, npartitions):
         index = dataset_info["index"]
         process_columns = index if index and len(index) == 1 else None
         if (calculate_divisions is not False) and process_columns:
+            # Only hand the statistics of the index to ``sorted_columns``: the
+            # entry of a filtered column may lack a name and min / max
+            # (all values equal, nulls present), which it does not expect
+            statistics = [
+                {
+                    **stats,
+                    "columns": [
+                        c for c in stats["columns"] if c.get("name") in process_columns
+                    ],
+                }
+                for stats in statistics
+            ]
+            if not all(len(stats["columns"]) == 1 for stats in statistics):
+                statistics = []
             for sorted_column_info in sorted_columns(
                 statistics, columns=process_columns
             ):
